@@ -281,6 +281,9 @@ def top_items(src):
         for it in items_in(src, lo, hi):
             out.append(it)
             if it.kind == 'mod' and it.open_si is not None:
+                a2 = [re.sub(r'\s+', '', a) for a in it.attrs]
+                if '#[cfg(test)]' in a2 or '#[cfg(kani)]' in a2:
+                    continue   # test / harness modules never hold code under contract
                 rec(it.open_si + 1, it.end_si)
     rec(0, src.n())
     return out
